@@ -94,6 +94,11 @@ def _check_label_address(resolver: Resolver, symbol_name: str, current_addr: Add
             "the size of a previous statement changed.",
             None,  # type:ignore
         )
+    if resolver.current_scope.value_for(symbol_name) != expected:
+        raise NodeError(
+            f"Label {symbol_name} is hidden by another definition of {symbol_name} in the same scope.",
+            None,  # type:ignore
+        )
 
 
 class LabelNode(NodeProtocol):
